@@ -413,6 +413,26 @@ def rule_R5(P, rep):
                                 st.append(s)
                     out[B.casename] = mem
             return out
+        # the typed writer takes the value *through* the caller's pointer in every case (the reader stores through its
+        # pointer in every case): `set(key, PTR, &p)` stores p, not &p
+        vp = C.params[-1]["n"]
+        for bid, B in C.blocks.items():
+            if not B.casename:
+                continue
+            seen, st, calls = set(), [bid], []
+            while st:
+                x = st.pop()
+                if x in seen:
+                    continue
+                seen.add(x)
+                calls += [i for i in C.blocks[x].elems if C.nodes[i].get("k") == "call" and "create_element_" in (C.nodes[i].get("fn") or "")]
+                if C.blocks[x].tk == "BreakStmt":
+                    continue
+                st += [s2 for s2 in C.blocks[x].succs if s2 is not None and not C.blocks[s2].casename and not C.blocks[s2].default]
+            for i in calls[:1]:
+                got = canon.expr(C, C.nodes[i]["a"][-1])
+                rep.ob("R5", "%s: case %s stores the value the caller's pointer points to" % (rec_prefix, B.casename), got == "*" + vp,
+                       "stores `%s`, expected `*%s`" % (got, vp), loc=C.loc(i), site="%s/deref/%s" % (rec_prefix, B.casename))
         w, r = member_by_case(C), member_by_case(R)
         for e in enums:
             rep.ob("R5", "%s: %s is written and read through the same union member" % (rec_prefix, e),
